@@ -34,7 +34,7 @@ for i in ids:
             if m.get('neutralised_by_fix'):
                 note = 'neutralised by fix ' + m['neutralised_by_fix'] + ' (the patch no longer breaks the property)'
             elif not m['detected_by_quick']:
-                note = 'deliberately not asserted (unmarshal into a non-empty receiver)'
+                note = 'deliberately not asserted (' + m.get('not_asserted_reason', 'unmarshal into a non-empty receiver') + ')'
             out.append('| %s | %s | %s | %s | %s |' % (i, c, r[0], r[1], note))
             any_det = any_det or r[0] == 'rc=1'
     if any_det: det += 1
